@@ -34,6 +34,11 @@ pub struct Tamper {
     /// the committer's leaf carries only the first k bytes of its (otherwise right) parent hash, k = 0: none at all;
     /// everything after that (leaf signature, tree hash, HPKE context, tags) is computed over that leaf
     pub leaf_parent_hash_prefix: Option<usize>,
+    /// the commit's proposal list (content of `ProposalOrRef proposals<V>`, without the length prefix) instead of the
+    /// genuine commit's; only proposals that leave the tree and the PSK secret alone
+    pub proposals: Option<Vec<u8>>,
+    /// encoded ExtensionList of the new epoch's group context (what a GroupContextExtensions proposal in `proposals` sets)
+    pub context_extensions: Option<Vec<u8>>,
 }
 
 pub struct ForgeInput<'a> {
@@ -114,7 +119,7 @@ pub fn forge(inp: &ForgeInput, tamper: &Tamper) -> Option<Forged> {
     let old_cth = r.opaque()?.to_vec();
     let ext_start = r.pos;
     r.opaque()?;
-    let ext_raw = inp.group_context[ext_start..r.pos].to_vec();
+    let ext_raw = tamper.context_extensions.clone().unwrap_or_else(|| inp.group_context[ext_start..r.pos].to_vec());
     let ctx = |epoch: u64, tree_hash: &[u8], cth: &[u8]| -> Vec<u8> {
         let mut out = vec![];
         out.extend_from_slice(&version.to_be_bytes());
@@ -219,7 +224,16 @@ pub fn forge(inp: &ForgeInput, tamper: &Tamper) -> Option<Forged> {
     }
 
     // framed content, signature, transcript, key schedule, tags
-    let mut framed = g[pm.framed.start..leaf_sp.start].to_vec();
+    let mut framed = match (&tamper.proposals, span("commit.proposals")) {
+        (Some(p), Some(ps)) => {
+            let mut f = g[pm.framed.start..ps.start].to_vec();
+            put_opaque(&mut f, p);
+            f.extend_from_slice(&g[ps.end..leaf_sp.start]);
+            f
+        }
+        (Some(_), None) => return None,
+        _ => g[pm.framed.start..leaf_sp.start].to_vec(),
+    };
     framed.extend_from_slice(&new_leaf);
     put_opaque(&mut framed, &nodes_enc);
     let mut ftbs = vec![];
@@ -527,5 +541,68 @@ pub fn key_package_with_init_key(w: &mut crate::world::World, party_id: usize, f
     let mut out = good[..kp_start].to_vec();
     out.extend_from_slice(&tbs);
     put_opaque(&mut out, &sig);
+    Some(out)
+}
+
+/// An insider (anybody who holds the epoch's encryption secret, i.e. every member) opens a genuine PrivateMessage with
+/// the reference key derivations, appends `padding` to the plaintext (PrivateMessageContent ends in zero padding of any
+/// length) and seals it again under the same message key, nonce and AAD. The encrypted sender data is reused as it is:
+/// its key is sampled from the head of the ciphertext, which a longer plaintext does not change.
+/// All-zero `padding` gives a message that is as valid as the genuine one (control).
+pub fn repad_private_message(suite: u16, csp: &VSuite, msg: &[u8], sender_data_secret: &[u8], encryption_secret: &[u8], n_leaves: u32, padding: &[u8]) -> Option<Vec<u8>> {
+    let s = rk::Suite::new(suite);
+    let mut r = Reader::new(msg);
+    let version = r.u16()?;
+    if r.u16()? != 2 {
+        return None;
+    }
+    let group_id = r.opaque()?.to_vec();
+    let epoch = r.u64()?;
+    let content_type = r.u8()?;
+    let authenticated_data = r.opaque()?.to_vec();
+    let esd = r.opaque()?.to_vec();
+    let ciphertext = r.opaque()?.to_vec();
+    if !r.is_empty() {
+        return None;
+    }
+    let (sd_key, sd_nonce) = rk::sender_data_key(&s, sender_data_secret, &ciphertext);
+    let mut sd_aad = vec![];
+    put_opaque(&mut sd_aad, &group_id);
+    sd_aad.extend_from_slice(&epoch.to_be_bytes());
+    sd_aad.push(content_type);
+    let sd = mls_rs::CipherSuiteProvider::aead_open(csp, &sd_key, &esd, Some(&sd_aad), &sd_nonce).ok()?;
+    let mut d = Reader::new(&sd);
+    let leaf = d.u32()?;
+    let generation = d.u32()?;
+    let guard = d.take(4)?.to_vec();
+    if generation > 4096 {
+        return None;
+    }
+    let (key, mut nonce) = rk::ratchet_key(&s, encryption_secret, n_leaves, leaf, content_type != 1, generation);
+    for i in 0..4 {
+        nonce[i] ^= guard[i];
+    }
+    let mut aad = vec![];
+    put_opaque(&mut aad, &group_id);
+    aad.extend_from_slice(&epoch.to_be_bytes());
+    aad.push(content_type);
+    put_opaque(&mut aad, &authenticated_data);
+    let mut content = mls_rs::CipherSuiteProvider::aead_open(csp, &key, &ciphertext, Some(&aad), &nonce).ok()?.to_vec();
+    content.extend_from_slice(padding);
+    let sealed = mls_rs::CipherSuiteProvider::aead_seal(csp, &key, &content, Some(&aad), &nonce).ok()?;
+    // the head of the ciphertext (what the sender-data key is sampled from) is unchanged
+    let n = s.nh().min(ciphertext.len());
+    if sealed.len() < n || sealed[..n] != ciphertext[..n] {
+        return None;
+    }
+    let mut out = vec![];
+    out.extend_from_slice(&version.to_be_bytes());
+    out.extend_from_slice(&2u16.to_be_bytes());
+    put_opaque(&mut out, &group_id);
+    out.extend_from_slice(&epoch.to_be_bytes());
+    out.push(content_type);
+    put_opaque(&mut out, &authenticated_data);
+    put_opaque(&mut out, &esd);
+    put_opaque(&mut out, &sealed);
     Some(out)
 }
